@@ -298,21 +298,38 @@ def extra_checks(tier):
     ns = {}
     exec(compile("CLAIMS=%r\nTWINS=%r" % (_const(tree, "CLAIMS"), _const(tree, "TWINS")), "<c>", "exec"), ns)
     claims, twins = ns["CLAIMS"], ns["TWINS"]
-    tmo = 40 if tier == "quick" else 120
+    tmo = int(os.environ.get("VERIF_CROSSHAIR_TIMEOUT", 40 if tier == "quick" else 120))
     t0 = time.time()
     env = dict(os.environ)
     env["PYTHONDONTWRITEBYTECODE"] = "1"
     p = subprocess.run(["python3-vt", "-m", "crosshair", "check", "--report_all", "--per_condition_timeout", str(tmo), target], capture_output=True, text=True, env=env, timeout=tmo * 12 + 120)
-    secs = time.time() - t0
     verdict = {}
-    for line in (p.stdout + p.stderr).splitlines():
-        m = re.match(r"^(.*?):(\d+): (info|error): (.*)$", line)
-        if not m:
-            continue
-        ln, kind, msg = int(m.group(2)), m.group(3), m.group(4)
-        fn = next((name for name, a, b in funcs if a <= ln <= b), None)
-        if fn:
-            verdict.setdefault(fn, []).append((kind, msg))
+
+    def absorb(text, replace=False):
+        seen = set()
+        for line in text.splitlines():
+            m = re.match(r"^(.*?):(\d+): (info|error): (.*)$", line)
+            if not m:
+                continue
+            ln, kind, msg = int(m.group(2)), m.group(3), m.group(4)
+            fn = next((name for name, a, b in funcs if a <= ln <= b), None)
+            if fn:
+                if replace and fn not in seen:
+                    verdict[fn] = []
+                seen.add(fn)
+                verdict.setdefault(fn, []).append((kind, msg))
+
+    absorb(p.stdout + p.stderr)
+    # CrossHair's per-condition budget is wall-clock: a condition (or twin) left without a verdict on a loaded machine gets
+    # one more run of its own with four times the budget
+    for fn in list(claims) + list(twins):
+        vs = verdict.get(fn, [])
+        done = any(k == "error" for k, _m in vs) or any("Confirmed over all paths" in m for _k, m in vs)
+        if not done:
+            line = next(a for name, a, b in funcs if name == fn) + 1
+            p2 = subprocess.run(["python3-vt", "-m", "crosshair", "check", "--report_all", "--per_condition_timeout", str(4 * tmo), "%s:%d" % (target, line)], capture_output=True, text=True, env=env, timeout=tmo * 8 + 120)
+            absorb(p2.stdout + p2.stderr, replace=True)
+    secs = time.time() - t0
     out = []
     for fn in claims:
         vs = verdict.get(fn, [])
